@@ -199,7 +199,8 @@ Proof.
     + split; auto. fin.
   - split; [break_inv; fin|fin].
   - pose proof (order_cells_good s [0] m H) as G. destruct (order_cells s m) as [s1 t]. simpl in *. destruct G as (A & _). split; auto. fin.
-  - pose proof (get_nn_good s [0] H) as G. destruct (get_nn s) as [s1 t]. simpl in G. split; [break_inv; fin|fin].
+  - pose proof (get_nn_good s [0] H) as G. destruct (get_nn s) as [s1 t]. simpl in G.
+    destruct (raster s1) eqn:Era; (split; [break_inv; fin|fin]).
 Qed.
 
 (* Every reachable state satisfies the invariant, and every value returned along ANY finite history of
